@@ -77,9 +77,11 @@ def compare_observation(r, obs, actions, states, label, tags, joint=False):
     for i, c in enumerate(comps):
         r.count("transitions")
         if joint:
-            got = [[a.name] + list(a.parameters) for a in c.grounded_joint_action.actions]
+            got = guard(lambda: [[a.name] + list(a.parameters) for a in c.grounded_joint_action.actions])
         else:
-            got = [c.grounded_action_call.name] + list(c.grounded_action_call.parameters)
+            got = guard(lambda: [c.grounded_action_call.name] + list(c.grounded_action_call.parameters))
+        if isinstance(got, Raised):
+            got = f"unreadable: {got}"
         if got != actions[i]:
             r.fail("action", f"{label} step {i}: parsed action {got}, expected {actions[i]}", actions[i], got, tags=tags)
             return False
@@ -111,6 +113,9 @@ def check_single(r, case):
             continue
         lines = [line(s) for s in plan]
         exp = w.__dict__.setdefault("_c10_exporter", TrajectoryExporter(w.D))  # one long-lived exporter per domain
+        # the error path first: the same exporter is given a plan whose second line names no action of the domain; the
+        # caller catches the error and goes on with the real plan
+        guard(lambda: exp.parse_plan(w.P, action_sequence=[lines[0], "(no-such-action a)"]))
         tr = guard(lambda: exp.parse_plan(w.P, action_sequence=list(lines)))
         if isinstance(tr, Raised):
             r.outcome("skip-plan-raised (C04's business)")
@@ -175,7 +180,25 @@ def check_joint(r, case):
         plans.append(([j1], [w.init, s1]))
         for j2, s2 in joint_steps(s1):
             plans.append(([j1, j2], [w.init, s1, s2]))
+    # a team of ONE agent: every joint action has a single slot
+    solo = []
+    for c1 in per_agent["a"]:
+        try:
+            if c1 is None:
+                solo.append((((None,), w.init)))
+            elif applicable(w.S, w.S.actions[c1[0]], c1[1], w.init, w.objs):
+                nxt = non_interfering(w.S, [c1], w.init, w.objs)
+                if nxt is not None:
+                    solo.append(((c1,), nxt))
+        except Exception:
+            continue
+    for j1, s1 in solo:
+        plans.append(([j1], [w.init, s1]))
+        for j2, s2 in solo[:3]:
+            if j2[0] is None:
+                plans.append(([j1, j2], [w.init, s1, s1]))
     for joint_plan, ref_states in plans:
+        agents = ["a", "b"] if len(joint_plan[0]) == 2 else ["a"]
         lines = [render(j) for j in joint_plan]
         exp = w.__dict__.setdefault("_c10_ma_exporter", MultiAgentTrajectoryExporter(w.D))  # long-lived
         tr = guard(lambda: exp.parse_plan(w.P, action_sequence=list(lines)))
